@@ -245,3 +245,97 @@ Definition elem_ok (x : elem) : bool :=
 Definition chain_ok (chain : list elem) : bool := forallb elem_ok chain.
 Fixpoint tree_ok (t : tree) : bool :=
   match t with Node x kids => elem_ok x && forallb tree_ok kids end.
+
+(** ** attribute defaults of the DTD, applied BEFORE namespace processing
+    (XML 1.0 3.3, 3.3.2; Namespaces in XML 1.0 section 3: a namespace is declared by an attribute
+    "directly or by default").
+
+    An attribute definition names the element type (a raw qualified name: DTDs are not namespace-aware),
+    the attribute -- already classified, as in [elem], into a namespace declaration [xmlns] / [xmlns:p]
+    and an ordinary attribute name -- and its default.  A [nsdtd] lists the definitions of all
+    attribute-list declarations in document order.
+
+    Readings.
+    N4.  3.3: "When more than one definition is provided for the same attribute of a given element type,
+         the first declaration is binding and later declarations are ignored" -- also when the first one
+         has no default value and a later one has.
+    N5.  3.3.2: only a declared default VALUE (["v"] or [#FIXED "v"]) supplies an attribute that is not
+         written; [#REQUIRED] and [#IMPLIED] supply nothing.  A written attribute (or declaration of the same
+         prefix) wins.
+    N6.  XML Infoset 2.2: a namespace declaration, written or defaulted, is no member of [attributes]. *)
+Inductive attname := ANDecl (p : prefix) | ANAttr (q : qname).
+Inductive nsdefault := NDValue (v : str) | NDFixed (v : str) | NDRequired | NDImplied.
+Record nsdef := { nd_elem : qname; nd_name : attname; nd_default : nsdefault }.
+Definition nsdtd := list nsdef.
+
+Definition qname_eqb (a b : qname) : bool :=
+  prefix_eqb (qn_prefix a) (qn_prefix b) && str_eqb (qn_local a) (qn_local b).
+Definition attname_eqb (a b : attname) : bool :=
+  match a, b with
+  | ANDecl p, ANDecl q => prefix_eqb p q
+  | ANAttr p, ANAttr q => qname_eqb p q
+  | _, _ => false
+  end.
+
+(** two definitions of the same attribute of the same element type *)
+Definition same_def (a b : nsdef) : bool :=
+  qname_eqb (nd_elem a) (nd_elem b) && attname_eqb (nd_name a) (nd_name b).
+
+(** N4: the binding definitions, in document order *)
+Fixpoint binding_defs (seen : nsdtd) (d : nsdtd) : nsdtd :=
+  match d with
+  | [] => []
+  | a :: r => if existsb (same_def a) seen then binding_defs seen r else a :: binding_defs (a :: seen) r
+  end.
+
+Definition default_of (k : nsdefault) : option str :=
+  match k with NDValue v | NDFixed v => Some v | NDRequired | NDImplied => None end.
+
+(** is the attribute written in the start-tag? *)
+Definition written (x : elem) (n : attname) : bool :=
+  match n with
+  | ANDecl p => existsb (fun d => prefix_eqb (fst d) p) (el_decls x)
+  | ANAttr q => existsb (qname_eqb q) (el_attrs x)
+  end.
+
+(** N5: the attributes supplied by default to one element, with their values *)
+Definition defaulted (d : nsdtd) (x : elem) : list (attname * str) :=
+  flat_map (fun a =>
+    if qname_eqb (nd_elem a) (el_name x) && negb (written x (nd_name a))
+    then match default_of (nd_default a) with Some v => [(nd_name a, v)] | None => [] end
+    else []) (binding_defs [] d).
+
+Definition decls_in (l : list (attname * str)) : list nsdecl :=
+  flat_map (fun nv => match fst nv with ANDecl p => [(p, snd nv)] | ANAttr _ => [] end) l.
+Definition attrs_in (l : list (attname * str)) : list qname :=
+  flat_map (fun nv => match fst nv with ANAttr q => [q] | ANDecl _ => [] end) l.
+
+(** the element "as though the attribute were present with the declared default value"; N6 *)
+Definition default_elem (d : nsdtd) (x : elem) : elem :=
+  {| el_name := el_name x;
+     el_decls := el_decls x ++ decls_in (defaulted d x);
+     el_attrs := el_attrs x ++ attrs_in (defaulted d x) |}.
+Fixpoint default_tree (d : nsdtd) (t : tree) : tree :=
+  match t with Node x kids => Node (default_elem d x) (map (default_tree d) kids) end.
+
+(** a document with its DTD: defaulting, then namespace processing *)
+Definition spec_ddoc (d : nsdtd) (t : tree) : list elem_obs := spec_doc (default_tree d t).
+Definition spec_dselect (b : bindings) (t : nametest) (attrs : bool) (d : nsdtd) (doc : tree) : option (list noderef) :=
+  spec_select b t attrs (default_tree d doc).
+
+(** renaming of the prefixes of a DTD *)
+Definition rn_attname (f : str -> str) (n : attname) : attname :=
+  match n with ANDecl p => ANDecl (rn_prefix f p) | ANAttr q => ANAttr (rn_qname f q) end.
+Definition rn_nsdef (f : str -> str) (a : nsdef) : nsdef :=
+  {| nd_elem := rn_qname f (nd_elem a); nd_name := rn_attname f (nd_name a); nd_default := nd_default a |}.
+Definition rn_nsdtd (f : str -> str) (d : nsdtd) : nsdtd := map (rn_nsdef f) d.
+
+Definition attname_prefixes (n : attname) : list str :=
+  match n with ANDecl p => opt_list p | ANAttr q => opt_list (qn_prefix q) end.
+Definition nsdtd_prefixes (d : nsdtd) : list str :=
+  flat_map (fun a => opt_list (qn_prefix (nd_elem a)) ++ attname_prefixes (nd_name a)) d.
+
+(** syntax: the reserved prefix xmlns is neither declared nor used by an attribute definition *)
+Definition attname_ok (n : attname) : bool :=
+  match n with ANDecl p => not_xmlns p | ANAttr q => not_xmlns (qn_prefix q) end.
+Definition nsdtd_ok (d : nsdtd) : bool := forallb (fun a => attname_ok (nd_name a)) d.
